@@ -149,6 +149,7 @@ def check(tier: str) -> Result:
     n_mv = move_rules.add_obligations(res, tree, "C09.R9")
     if n_mv < 12:
         raise AnalysisError(f"only {n_mv} applications of a unit-move table found (hand-confirmed minimum 12)")
+    n_wo = move_rules.write_order_obligations(res, tree, "C09.R10")
     res.analysed = {"table_pairings": n, "axis_typed_sites": n_axis, "mask_vs_step_validity": n_b}
     res.assumptions = ["direction names in the code carry their usual meaning (up = previous row, left = previous column)",
                        "PacMan is excluded from the naming convention (its x/y naming is transposed); only sibling agreement is checked there"]
